@@ -92,7 +92,48 @@ KNOWN_TYPES = {"txt": "text/plain", "html": "text/html", "csv": "text/csv",
                "odt": "application/vnd.oasis.opendocument.text", "ods": "application/vnd.oasis.opendocument.spreadsheet",
                "odp": "application/vnd.oasis.opendocument.presentation", "odg": "application/vnd.oasis.opendocument.graphics",
                "pdf": "application/pdf", "rtf": "application/rtf", "epub": "application/epub+zip"}
-EXT = {k: k for k in KNOWN_TYPES} | {"bin": "bin"}
+KNOWN_TYPES |= {"zip": "application/zip", "tgz": "application/gzip"}
+EXT = {k: k for k in KNOWN_TYPES} | {"bin": "bin", "tgz": "tar.gz"}
+# declared types in common use (Mail.tla a.mt); "alias"/"cross" strings are keys of the library's table at the
+# pinned commit, "plausible" ones are in use but not in it
+ALIAS_TYPES = {"csv": ["application/csv"], "rtf": ["text/rtf"], "html": ["application/xhtml+xml"],
+               "zip": ["application/x-zip-compressed"], "tgz": ["application/x-gzip"]}
+CROSS_TYPES = {"csv": ("text/plain", "txt"), "html": ("text/plain", "txt"), "docx": ("application/msword", "doc"),
+               "xlsx": ("application/vnd.ms-excel", "xls"), "pptx": ("application/vnd.ms-powerpoint", "ppt")}
+PLAUSIBLE_TYPES = {"txt": "text/x-log", "html": "text/x-server-parsed-html", "csv": "text/comma-separated-values",
+                   "docx": "application/vnd.ms-word.document.12", "pptx": "application/x-mspowerpoint",
+                   "xlsx": "application/x-msexcel", "odt": "application/x-vnd.oasis.opendocument.text",
+                   "ods": "application/x-vnd.oasis.opendocument.spreadsheet",
+                   "odp": "application/x-vnd.oasis.opendocument.presentation",
+                   "odg": "application/x-vnd.oasis.opendocument.graphics", "pdf": "application/x-pdf",
+                   "rtf": "application/x-rtf", "epub": "application/x-epub", "zip": "application/x-compressed",
+                   "tgz": "application/x-compressed-tar", "bin": "application/x-binary"}
+XPLAIN = {"alt2": "Alternative plain rendering (format=flowed)\nof the same message, second variant.",
+          "footer": "-- \nYou receive this mail because you are subscribed to the c16-list.\nUnsubscribe: list-off@lists.example.net",
+          "fwd": "Forwarded inner message body.\nIt has two lines of its own."}
+
+
+def archive_bytes(kind: str, j: int) -> bytes:
+    """bundle.zip / logs.tar.gz holding two small documents."""
+    import tarfile
+    members = [(f"inner notes {j}.txt", f"inner text document {j}\nsecond inner line\n".encode()),
+               (f"inner table {j}.csv", f"k,v\narchive,{j}\n".encode())]
+    buf = io.BytesIO()
+    if kind == "zip":
+        with zipfile.ZipFile(buf, "w", zipfile.ZIP_DEFLATED) as z:
+            for name, data in members:
+                z.writestr(zipfile.ZipInfo(name, date_time=(2020, 1, 1, 0, 0, 0)), data)
+    else:
+        import gzip
+        raw = io.BytesIO()
+        with tarfile.open(fileobj=raw, mode="w") as t:
+            for name, data in members:
+                ti = tarfile.TarInfo(name)
+                ti.size, ti.mtime = len(data), 1577836800
+                t.addfile(ti, io.BytesIO(data))
+        with gzip.GzipFile(fileobj=buf, mode="wb", mtime=0) as gz:
+            gz.write(raw.getvalue())
+    return buf.getvalue()
 RENDERED = ("pptx", "xlsx", "odt", "ods", "odp", "odg", "pdf", "rtf", "epub")     # written by the shared writers
 FN_STEMS = {"ascii": ["notes", "page", "data_2026-Q3", "report final", "Quarterly figures"],
             "rfc2231": ["Übersicht 日本", "résumé été", "Отчёт", "naïve–file"],
@@ -160,6 +201,8 @@ def payload_bytes(pl: str, j: int, fixture_docx: bytes | None) -> bytes:
         return minimal_docx(f"Generated docx attachment number {j}")
     if pl in RENDERED:
         return rendered_doc(pl, j)
+    if pl in ("zip", "tgz"):
+        return archive_bytes(pl, j)
     if pl == "bin":
         return bytes(range(256)) + b"\r\n\n\r\x00From here\n" + bytes([j]) * 7 + b"\xff\xfe"
     raise ValueError(pl)
@@ -265,6 +308,8 @@ class Case:
             esc = "\n".join(">" + ln if ln.startswith("From ") else ln for ln in lines)
             self.rev_body[esc] = ["plainesc", b["pc"], 1]
         self.rev_body[self.plain] = ["plain", b["pc"], 1 if b["pf"] else 0]
+        for k, t in XPLAIN.items():
+            self.rev_body[t] = ["xplain", k, 0]
         self.html = HTML_TEXTS[b["hc"]]
         self.rev_body[self.html] = ["html", b["hc"], 0]
         # attachments
@@ -278,10 +323,20 @@ class Case:
             pl = a["pl"]
             data = payload_bytes(pl, j, self.fixture_docx)
             self.payloads[j] = (pl, data)
-            # an unknown type names its payload kind (the projection maps type strings back to tokens)
-            mt = KNOWN_TYPES[pl] if a["known"] else rng.choice(
-                [f"application/x-c16-{pl}", f"application/vnd.c16.{pl}+unknown"]
-                + (["application/octet-stream"] if pl == "bin" else []))
+            # the declared type; its token names the STRING (Mail!ExpType), so equal strings give equal tokens
+            kind = a["mt"]
+            if kind == "official":
+                mt, ttok = KNOWN_TYPES[pl], ["type", pl, 1]
+            elif kind == "alias":
+                mt, ttok = rng.choice(ALIAS_TYPES[pl]), ["type", pl, 2]
+            elif kind == "cross":
+                mt, ttok = CROSS_TYPES[pl][0], ["type", CROSS_TYPES[pl][1], 1]
+            elif kind == "octet":
+                mt, ttok = "application/octet-stream", ["type", "octet", 3]
+            elif kind == "plausible":
+                mt, ttok = PLAUSIBLE_TYPES[pl], ["type", pl, 5]
+            else:
+                mt, ttok = rng.choice([f"application/x-c16-{pl}", f"application/vnd.c16.{pl}+unknown"]), ["type", pl, 0]
             fn = None
             if a["fn"] != "none":
                 stem = f"{rng.choice(FN_STEMS[a['fn']])} {j}"
@@ -293,7 +348,7 @@ class Case:
                 self.rev_fn[fn.strip()] = ["fn", a["fn"], j]                      # DC9: outer blanks
             if data in self.rev_bytes:
                 raise ValueError(f"payload bytes of attachment {j} ({pl}) are not unique in this message")
-            self.rev_type[mt] = ["type", pl, 1 if a["known"] else 0]
+            self.rev_type[mt] = ttok
             self.rev_bytes[data] = ["bytes", pl, j]
             self.rev_bytes_nl[data.replace(b"\r\n", b"\n")] = ["bytesnl", pl, j]
             self.atts.append(dict(a=a, j=j, pl=pl, data=data, mt=mt, fn=fn))
@@ -313,6 +368,9 @@ class Case:
         if s in ("plain", "alt", "altrel"):
             root.set_content(ptxt, subtype="plain", charset=pcs, cte=self._cte(ptxt, b["pe"]))
             if s != "plain":
+                if b["x"] == "alt2":
+                    root.add_alternative(XPLAIN["alt2"] + "\n", subtype="plain", charset="utf-8",
+                                         params={"format": "flowed"})
                 root.add_alternative(htxt, subtype="html", charset=hcs, cte=self._cte(htxt, b["he"]))
                 if s == "altrel":
                     root.get_payload()[1].add_related(INLINE_PNG, maintype="image", subtype="png", cid="<c16img@x>")
@@ -321,6 +379,17 @@ class Case:
             if s == "related":
                 root.add_related(INLINE_PNG, maintype="image", subtype="png", cid="<c16img@x>",
                                  **({"filename": "logo.png"} if self.rng.random() < 0.3 else {}))
+        # further plain-text body candidates after the body, before the attachments
+        if b["x"] in ("footer", "both", "fwd"):
+            root.make_mixed()
+            if b["x"] in ("footer", "both"):
+                f = EmailMessage(policy=pol)
+                f.set_content(XPLAIN["footer"] + "\n", charset="us-ascii" if self.rng.random() < 0.5 else "utf-8",
+                              **({"disposition": "inline"} if self.rng.random() < 0.5 else {}))
+                del f["MIME-Version"]
+                root.attach(f)
+            if b["x"] in ("fwd", "both"):
+                root.attach(self._forwarded(pol))
         atts = list(self.atts)
         if m["nest"] and len(atts) == 2:
             self._add_att(root, atts[0])
@@ -333,6 +402,20 @@ class Case:
             self._add_att(root, a)
         return root
 
+    def _forwarded(self, pol=None) -> Message:
+        """message/rfc822 part (no disposition, no name) holding a message whose body is text/plain."""
+        inner = EmailMessage(policy=pol) if pol is not None else EmailMessage()
+        inner["From"] = "Inner Sender <inner.sender@fwd.example.org>"
+        inner["To"] = "inner.rcpt@fwd.example.org"
+        inner["Subject"] = "Inner forwarded subject"
+        inner["Date"] = "Mon, 02 Jan 2006 15:04:05 -0700"
+        inner["Message-ID"] = "<inner.1@fwd.example.org>"
+        inner.set_content(XPLAIN["fwd"] + "\n")
+        part = Message() if pol is None else EmailMessage(policy=pol)
+        part["Content-Type"] = "message/rfc822"
+        part.set_payload([inner])
+        return part
+
     def _add_att(self, msg: EmailMessage, a: dict):
         pl, cte = a["pl"], a["a"]["cte"]
         maintype, subtype = a["mt"].split("/", 1)
@@ -343,6 +426,20 @@ class Case:
                 # the non-standard but ubiquitous form filename="=?utf-8?B?...?=": the modern policy would
                 # re-encode it as RFC 2231, so a placeholder is written and replaced in the final bytes
                 kw["filename"] = f"C16PH{a['j']}.bin"
+        aa = a["a"]
+        if aa["disp"] == "inline":
+            kw["disposition"] = "inline"
+        if aa["cid"]:
+            kw["cid"] = f"<att{a['j']}.c16@mail.example.org>"
+        hdrs = []
+        if aa["desc"]:
+            hdrs.append(f"Content-Description: document number {a['j']}")
+        if aa["xid"]:
+            hdrs.append(f"X-Attachment-Id: f_c16att{a['j']}")
+        if aa["loc"]:
+            hdrs.append(f"Content-Location: att{a['j']}.dat")
+        if hdrs:
+            kw["headers"] = hdrs
         if cte == "qp" and pl in ("txt", "html", "csv") and maintype == "text":
             # textual route: the content manager canonicalises line ends (DC8)
             msg.add_attachment(a["data"].decode("utf-8"), subtype=subtype, charset="utf-8",
@@ -350,6 +447,11 @@ class Case:
         else:
             msg.add_attachment(a["data"], maintype=maintype, subtype=subtype,
                                cte="quoted-printable" if cte == "qp" else "base64", **kw)
+        if aa["disp"] == "absent":
+            # no Content-Disposition at all: the name travels as Content-Type name= (old Outlook / Eudora)
+            part = msg.get_payload()[-1]
+            del part["Content-Disposition"]
+            part.set_param("name", kw["filename"])
 
     def _body_legacy(self) -> Message:
         """compat32 classes (MIMEMultipart / MIMENonMultipart + email.encoders)."""
@@ -377,14 +479,31 @@ class Case:
                 encoders.encode_quopri(p)
             else:
                 encoders.encode_base64(p)
+            aa = a["a"]
+            disp = aa["disp"]
             if a["fn"] is None:
                 p.add_header("Content-Disposition", "attachment")
-            elif a["a"]["fn"] == "rfc2047":
-                p["Content-Disposition"] = 'attachment; filename="%s"' % encode_words(a["fn"], "utf-8", "b")
-            elif a["a"]["fn"] == "rfc2231":
-                p.add_header("Content-Disposition", "attachment", filename=("utf-8", "", a["fn"]))
+            elif disp == "absent":            # the name only as Content-Type name=
+                if aa["fn"] == "rfc2047":
+                    p.set_param("name", encode_words(a["fn"], "utf-8", "b"))
+                elif aa["fn"] == "rfc2231":
+                    p.set_param("name", a["fn"], charset="utf-8")
+                else:
+                    p.set_param("name", a["fn"])
+            elif aa["fn"] == "rfc2047":
+                p["Content-Disposition"] = '%s; filename="%s"' % (disp, encode_words(a["fn"], "utf-8", "b"))
+            elif aa["fn"] == "rfc2231":
+                p.add_header("Content-Disposition", disp, filename=("utf-8", "", a["fn"]))
             else:
-                p.add_header("Content-Disposition", "attachment", filename=a["fn"])
+                p.add_header("Content-Disposition", disp, filename=a["fn"])
+            if aa["cid"]:
+                p["Content-ID"] = f"<att{a['j']}.c16@mail.example.org>"
+            if aa["desc"]:
+                p["Content-Description"] = f"document number {a['j']}"
+            if aa["xid"]:
+                p["X-Attachment-Id"] = f"f_c16att{a['j']}"
+            if aa["loc"]:
+                p["Content-Location"] = f"att{a['j']}.dat"
             return p
 
         def img_part():
@@ -397,23 +516,29 @@ class Case:
         s = b["s"]
         pp = text_part(self.plain, "plain", PY_CHARSET[b["pc"]], b["pe"])
         hp = text_part(self.html, "html", PY_CHARSET[b["hc"]], b["he"])
+        alt2 = [text_part(XPLAIN["alt2"], "plain", "utf-8", "7bit")] if b["x"] == "alt2" else []
         if s == "plain":
             body = pp
         elif s == "html":
             body = hp
         elif s == "alt":
-            body = MIMEMultipart("alternative", _subparts=[pp, hp])
+            body = MIMEMultipart("alternative", _subparts=[pp] + alt2 + [hp])
         elif s == "related":
             body = MIMEMultipart("related", _subparts=[hp, img_part()])
         else:
-            body = MIMEMultipart("alternative", _subparts=[pp, MIMEMultipart("related", _subparts=[hp, img_part()])])
+            body = MIMEMultipart("alternative", _subparts=[pp] + alt2 + [MIMEMultipart("related", _subparts=[hp, img_part()])])
+        extras = []
+        if b["x"] in ("footer", "both"):
+            extras.append(text_part(XPLAIN["footer"], "plain", "us-ascii", "7bit"))
+        if b["x"] in ("fwd", "both"):
+            extras.append(self._forwarded(None))
         atts = list(self.atts)
-        if not atts:
+        if not atts and not extras:
             return body
         if m["nest"] and len(atts) == 2:
-            inner = MIMEMultipart("mixed", _subparts=[body, att_part(atts[0])])
+            inner = MIMEMultipart("mixed", _subparts=[body] + extras + [att_part(atts[0])])
             return MIMEMultipart("mixed", _subparts=[inner, att_part(atts[1])])
-        return MIMEMultipart("mixed", _subparts=[body] + [att_part(a) for a in atts])
+        return MIMEMultipart("mixed", _subparts=[body] + extras + [att_part(a) for a in atts])
 
     # ---- headers
     def _date_text(self) -> str:
@@ -524,8 +649,8 @@ class Case:
         for a in self.atts:
             if a["fn"] is not None and a["a"]["fn"] == "rfc2047":
                 ew = encode_words(a["fn"], "utf-8", self.rng.choice(["b", "q"])).encode("ascii")
-                ph = re.compile(rb'filename="?C16PH%d\.bin"?' % a["j"])
-                b = ph.sub(b'filename="' + ew + b'"', b)
+                ph = re.compile(rb'(filename|name)="?C16PH%d\.bin"?' % a["j"])
+                b = ph.sub(lambda mo: mo.group(1) + b'="' + ew + b'"', b)
         return b
 
     def _writer_ok(self, b: bytes) -> bool:
@@ -583,6 +708,22 @@ class Case:
         def body(s):
             s = (s or "").replace("\r\n", "\n").strip()                       # DC3
             return self.rev_body.get(s, UNKNOWN)
+
+        def body_seq(s):
+            """A plain body / full text as the sequence of known texts it consists of (separated by white
+            space only); [] for the empty string, [Unknown] if it is anything else."""
+            s = (s or "").replace("\r\n", "\n").strip()
+            out = []
+            texts = sorted(((t, tok) for t, tok in self.rev_body.items() if t), key=lambda kv: -len(kv[0]))
+            while s:
+                for t, tok in texts:
+                    if s.startswith(t) and (len(s) == len(t) or s[len(t)].isspace()):
+                        out.append(tok)
+                        s = s[len(t):].lstrip()
+                        break
+                else:
+                    return [UNKNOWN]
+            return out
         subj = c.subject or ""
         words = [self.rev_word.get(w, UNKNOWN) for w in re.split(r"[ \t]+", subj) if w != ""]   # DC2
         atts = []
@@ -599,13 +740,13 @@ class Case:
         # the join law of C03, exactly as mbv/docrun.py observe() states it
         joinok = bool(full == "\n".join(u.get_text() for u in units).strip())
         utype = getattr(units[0].get_metadata(), "body_type", "?") if units else "none"
-        return {"nunits": len(units), "utype": str(utype), "full": body(full), "joinok": joinok,
+        return {"nunits": len(units), "utype": str(utype), "full": body_seq(full), "joinok": joinok,
                 "subj": words, "from": box(c.from_email),
                 "to": [box(b) for b in c.to_emails], "cc": [box(b) for b in c.to_cc],
                 "bcc": [box(b) for b in c.to_bcc], "rt": [box(b) for b in c.reply_to],
                 "date": self.project_date(c.metadata.date), "mid": self.rev_id.get(c.metadata.message_id, UNKNOWN),
                 "irt": self.rev_id.get(c.in_reply_to, UNKNOWN),
-                "plain": body(c.body_plain), "html": body(c.body_html), "atts": atts}
+                "plain": body_seq(c.body_plain), "html": body(c.body_html), "atts": atts}
 
     def project_date(self, s: str):
         if not s:
